@@ -1016,7 +1016,9 @@ impl Graph {
             }
         }
 
-        let parent_id = *parents.iter().next().unwrap();
+        // there is no parent if a lookup is compiled on its own, in which
+        // case there is nothing we can do.
+        let parent_id = *parents.iter().next()?;
         Some((can_promote, parent_id))
     }
 
